@@ -264,6 +264,18 @@ def table_check(tier, rep_counts, p1s):
     return viols
 
 
+def _samples(pats):
+    from mpgameserver.http_server import Router, Route
+    out = []
+    for pi, qi in ((17, 33), (400, 250), (1100, 1500), (900, 77)):
+        pattern, path = pats[pi % len(pats)], _PATHS[qi % len(_PATHS)]
+        r = Router()
+        r.registerRoutes([Route("r", "GET", pattern, None)])
+        res = r.getRoute("GET", path)
+        out.append({"pattern": pattern, "path": path, "documented": ref_match(pattern, path)[0], "router": None if res is None else res[1]})
+    return out
+
+
 def run(tier, seed):
     rep = core.Report()
     pats = patterns(4)
@@ -306,8 +318,7 @@ def run(tier, seed):
         "verdict_classes": dict(classes),
         "dispatch_requests": extra.get("dispatch_requests", 0),
         "exhaustive": True,
-        "samples": [{"pattern": "/a.b/:p/:r+", "path": "/a.b/ab/b/axb/"}, {"pattern": "/:p/:r?", "path": "/a"},
-                    {"table": ["GET /a/:r*", "POST /a"], "request": "POST /a"}],
+        "samples": _samples(pats),
     }
     rep.assumptions = ["reference matcher written from the documented table in Resource/Router docstrings",
                        "rate limiter kept out of the way: one client address per request and a frozen clock"]
